@@ -528,7 +528,7 @@ theorem set_self (m : Spec.Map K V) (i : Int) (a : Option (K × V)) (h : m i = a
   · rename_i hj; rw [hj, h]
   · rfl
 
-theorem changeKey_sim (hz : ∀ a b, cmp a b = 0 → a = b) {eq : V → V → Bool} {cap : Nat} {h h' : IFib K V}
+theorem changeKey_sim {eq : V → V → Bool} {cap : Nat} {h h' : IFib K V}
     (inv : Inv cap h) (i : Int) (key : K) (b : Bool) (he : h.changeKey cmp i key = .ok (h', b)) :
     Inv cap h' ∧ Spec.AdmitWeak cmp eq cap (abs h) (.changeKey i key) (.bool b) (abs h') := by
   have r := inv.reg
@@ -579,7 +579,7 @@ theorem changeKey_sim (hz : ∀ a b, cmp a b = 0 → a = b) {eq : V → V → Bo
               · split at he
                 · cases he
                   refine ⟨⟨r2, by rw [hn2, habs2]; exact hcard⟩, ?_⟩
-                  rw [habs2]; exact .changeKey_ok habs
+                  rw [habs2]; exact .changeKey_ok habs (Or.inl rfl)
                 · split at he
                   · rename_i roots' hrot
                     cases he
@@ -588,7 +588,7 @@ theorem changeKey_sim (hz : ∀ a b, cmp a b = 0 → a = b) {eq : V → V → Bo
                       rw [hn2, show absOf h2.nodes h2.cells = abs h2 from rfl, habs2]; exact hcard
                     · show Spec.AdmitWeak cmp eq cap (abs h) _ _ (absOf h2.nodes h2.cells)
                       rw [show absOf h2.nodes h2.cells = abs h2 from rfl, habs2]
-                      exact .changeKey_ok habs
+                      exact .changeKey_ok habs (Or.inl rfl)
                   · cases he
               · cases he
               · cases he
@@ -617,7 +617,7 @@ theorem changeKey_sim (hz : ∀ a b, cmp a b = 0 → a = b) {eq : V → V → Bo
             · exact absurd ⟨hr, by rw [habs1']; exact Spec.set_same _ _ _⟩ hno
             · have : abs h' = (abs h).set i (some (key, c1.val)) := by rw [habs2, habs1', set_set]
               refine ⟨inv2, ?_⟩
-              rw [this]; exact .changeKey_ok habs
+              rw [this]; exact .changeKey_ok habs (Or.inl rfl)
           · cases he
           · cases he
         · cases he
@@ -625,11 +625,10 @@ theorem changeKey_sim (hz : ∀ a b, cmp a b = 0 → a = b) {eq : V → V → Bo
       · -- same key (cmp = 0): nothing changes, and the comparator identifies the keys
         rename_i hnlt hngt
         cases he
-        have hkey : key = c.key := hz _ _ (by omega)
-        have : (abs h).set i (some (key, c.val)) = abs h := set_self _ _ _ (by rw [habs, hkey])
+        have : (abs h).set i (some (c.key, c.val)) = abs h := set_self _ _ _ habs
         refine ⟨inv, ?_⟩
         have adm := Spec.AdmitG.changeKey_ok (P := fun _ _ => True) (cmp := cmp) (eq := eq) (cap := cap)
-          (m := abs h) (i := i) (k := key) habs
+          (m := abs h) (i := i) (k := key) (k' := c.key) habs (Or.inr ⟨rfl, by omega⟩)
         rw [this] at adm; exact adm
 
 theorem peek_sim {eq : V → V → Bool} {cap : Nat} {h : IFib K V} (inv : Inv cap h)
@@ -685,7 +684,7 @@ theorem isEmpty_iff {cap : Nat} {h : IFib K V} (r : Reg cap (rootsIds h.roots) h
     rw [show absOf h.nodes h.cells = abs h from rfl, hall] at this
     cases this
 
-theorem step_sim (hz : ∀ a b, cmp a b = 0 → a = b) (eq : V → V → Bool) {cap : Nat} (h : IFib K V) (op : Op K V)
+theorem step_sim (eq : V → V → Bool) {cap : Nat} (h : IFib K V) (op : Op K V)
     (h' : IFib K V) (res : Res K V) (inv : Inv cap h) (he : step cmp eq h op = .ok (h', res)) :
     Inv cap h' ∧ Spec.AdmitWeak cmp eq cap (abs h) op res (abs h') := by
   cases op with
@@ -698,7 +697,7 @@ theorem step_sim (hz : ∀ a b, cmp a b = 0 → a = b) (eq : V → V → Bool) {
   | changeKey i k =>
     simp only [step, Outcome.map] at he
     split at he
-    · rename_i p hp; obtain ⟨h1, b⟩ := p; cases he; exact changeKey_sim hz inv i k b hp
+    · rename_i p hp; obtain ⟨h1, b⟩ := p; cases he; exact changeKey_sim inv i k b hp
     · cases he
     · cases he
   | delete =>
